@@ -47,6 +47,9 @@ type MemoryStore struct {
 	memoryPressureRejects    int64
 	memoryPressureItemLimit  int
 	memoryPressureBytesLimit int64
+	// tentativeDrops records drop_oldest evictions of the enqueue in progress
+	// so that they can be undone when the enqueue is refused after all.
+	tentativeDrops *[]*Envelope
 }
 
 type backlogTrendRow struct {
@@ -162,6 +165,9 @@ func (s *MemoryStore) Enqueue(env Envelope) error {
 	s.mu.Lock()
 	defer s.mu.Unlock()
 
+	stored := false
+	defer s.trackDropsLocked(&stored)()
+
 	now := s.nowFn()
 	s.maybePruneLocked(now)
 
@@ -216,6 +222,7 @@ func (s *MemoryStore) Enqueue(env Envelope) error {
 	cpy := env
 	s.items[env.ID] = &cpy
 	s.order = append(s.order, env.ID)
+	stored = true
 
 	// Wake up any long-polling Dequeue calls.
 	close(s.notify)
@@ -233,6 +240,9 @@ func (s *MemoryStore) EnqueueBatch(items []Envelope) (int, error) {
 
 	s.mu.Lock()
 	defer s.mu.Unlock()
+
+	stored := false
+	defer s.trackDropsLocked(&stored)()
 
 	now := s.nowFn()
 	s.maybePruneLocked(now)
@@ -312,6 +322,7 @@ func (s *MemoryStore) EnqueueBatch(items []Envelope) (int, error) {
 		s.items[env.ID] = env
 		s.order = append(s.order, env.ID)
 	}
+	stored = true
 
 	close(s.notify)
 	s.notify = make(chan struct{})
@@ -354,7 +365,30 @@ func (s *MemoryStore) evictLocked(id string, reason string) bool {
 		delete(s.leases, env.LeaseID)
 	}
 	s.incEvictionLocked(reason)
+	if s.tentativeDrops != nil && reason == memoryEvictionReasonDropOldest {
+		*s.tentativeDrops = append(*s.tentativeDrops, env)
+	}
 	return true
+}
+
+// trackDropsLocked makes the drop_oldest evictions of one enqueue call
+// tentative: the returned function puts them back unless *stored is true, so a
+// refused enqueue (duplicate id, memory pressure, not enough queued items to
+// drop) leaves the queue untouched, as the transactional backends do.
+func (s *MemoryStore) trackDropsLocked(stored *bool) func() {
+	var drops []*Envelope
+	s.tentativeDrops = &drops
+	return func() {
+		s.tentativeDrops = nil
+		if *stored {
+			return
+		}
+		for _, env := range drops {
+			// s.order still holds the id, so the item keeps its position.
+			s.items[env.ID] = env
+			s.evictionsTotalByReason[memoryEvictionReasonDropOldest]--
+		}
+	}
 }
 
 func (s *MemoryStore) incEvictionLocked(reason string) {
